@@ -25,6 +25,8 @@ type E1Job struct {
 	Shards int // 0: automatic
 	// Labeled re-runs one schedule with the event log on (replay); optional.
 	Labeled func(devs []vrt.Dev) *explore.Exec
+	// Post judges the merged statistics of the whole exploration (existential oracles over Stats.Tags).
+	Post func(st *explore.Stats) []explore.Violation
 }
 
 // ReplayE1 re-runs the schedule recorded in the replay file on the job it names and prints the event log.
@@ -168,7 +170,7 @@ func (c *Check) E1Batch(jobs []E1Job, budget time.Duration) {
 }
 
 func merge(l []*explore.Stats) *explore.Stats {
-	m := &explore.Stats{Outcomes: map[string]int64{}, OutcomeSample: map[string][]vrt.Dev{}, FoundCount: map[string]int64{}, CompletedBound: 1 << 30, Saturated: true}
+	m := &explore.Stats{Tags: map[string]int64{}, Outcomes: map[string]int64{}, OutcomeSample: map[string][]vrt.Dev{}, FoundCount: map[string]int64{}, CompletedBound: 1 << 30, Saturated: true}
 	for _, s := range l {
 		m.Execs += s.Execs
 		m.Steps += s.Steps
@@ -189,6 +191,9 @@ func merge(l []*explore.Stats) *explore.Stats {
 		m.Saturated = m.Saturated && s.Saturated
 		if s.Capped != "" {
 			m.Capped = s.Capped
+		}
+		for k, v := range s.Tags {
+			m.Tags[k] += v
 		}
 		for k, v := range s.Outcomes {
 			m.Outcomes[k] += v
@@ -303,6 +308,11 @@ func (c *Check) foldE1(j E1Job, st *explore.Stats) {
 		}
 		c.Report(f.Violation.Fingerprint, fmt.Sprintf("%s (first of %d executions; deviations=%v)", f.Violation.Detail, st.FoundCount[f.Violation.Fingerprint], f.Devs),
 			map[string]any{"harness": name, "devs": f.Devs, "outcome": f.Outcome})
+	}
+	if j.Post != nil && st.Capped == "" && len(st.EngineErrors) == 0 {
+		for _, v := range j.Post(st) {
+			c.Report(v.Fingerprint, v.Detail, map[string]any{"harness": name, "aggregate": true})
+		}
 	}
 	outs := make([]string, 0, len(st.Outcomes))
 	for k := range st.Outcomes {
